@@ -298,9 +298,11 @@ struct Worker
 	static void tramp(void* p) { ((Worker*)p)->run(); }
 };
 
-void genHandles(Prng& r, Plan& p, int)
+void genHandles(Prng& r, Plan& p, int tier)
 {
 	int T = 2 + (int)r.below(2);
+	if (tier && r.below(10) == 0)
+		T = 4 + (int)r.below(5); // high-contention runs (thorough tier)
 	p.p["threads"] = T;
 	p.p["main_drops_first"] = r.below(2);
 	p.p["keep"] = r.below(3) == 0; // workers keep their handles; main drops them after join
@@ -320,7 +322,7 @@ void genHandles(Prng& r, Plan& p, int)
 template <class H>
 void runHandles(const Plan& p)
 {
-	int T = (int)std::max<int64_t>(1, std::min<int64_t>(3, p.get("threads", 2)));
+	int T = (int)std::max<int64_t>(1, std::min<int64_t>(8, p.get("threads", 2)));
 	{
 		// warm-up: function-local statics of the library (e.g. the default element returned by
 		// Map::operator[] const) are constructed once per process and are not part of this run's accounting
@@ -341,7 +343,7 @@ void runHandles(const Plan& p)
 			w[(size_t)t].slot[0] = new H(*shared); // the creator makes each worker's initial handle
 			w[(size_t)t].obj[0] = 0;
 		}
-		size_t perThread[3] = {0, 0, 0};
+		size_t perThread[8] = {0, 0, 0, 0, 0, 0, 0, 0};
 		for (auto& o : p.ops)
 			if (o.k == "h")
 			{
@@ -438,21 +440,24 @@ void runSocket(const Plan& p) { runHandles<asl::Socket>(p); }
 
 // ================================================================ AtomicCount
 // ops: c(thread, kind)  kind 0 ++, 1 --, 2 read
-void genCount(Prng& r, Plan& p, int)
+void genCount(Prng& r, Plan& p, int tier)
 {
 	int T = 2 + (int)r.below(2);
+	bool heavy = tier && r.below(10) == 0;
+	if (heavy)
+		T = 8 + (int)r.below(9); // up to 16 threads
 	p.p["threads"] = T;
 	p.p["initial"] = r.range(-3, 3);
 	for (int t = 0; t < T; t++)
 	{
-		int n = 1 + (int)r.below(4);
+		int n = heavy ? 10 + (int)r.below(31) : 1 + (int)r.below(4);
 		for (int i = 0; i < n; i++)
 			p.ops.push_back(op("c", {t, (int64_t)r.below(3)}));
 	}
 }
 void runCount(const Plan& p)
 {
-	int T = (int)std::max<int64_t>(1, std::min<int64_t>(3, p.get("threads", 2)));
+	int T = (int)std::max<int64_t>(1, std::min<int64_t>(16, p.get("threads", 2)));
 	int initial = (int)p.get("initial");
 	asl::AtomicCount cnt(initial);
 	std::vector<std::vector<int>> ops((size_t)T);
@@ -462,7 +467,7 @@ void runCount(const Plan& p)
 		{
 			size_t t = (size_t)(std::abs(o.arg(0)) % T);
 			int k = (int)(std::abs(o.arg(1)) % 3);
-			if (ops[t].size() < 6)
+			if (ops[t].size() < 48)
 			{
 				ops[t].push_back(k);
 				incs += k == 0;
@@ -496,14 +501,17 @@ void runCount(const Plan& p)
 
 // ================================================================ Atomic<T>
 // ops: a(thread, kind, arg)  kind 0 ++pre 1 post++ 2 --pre 3 post-- 4 += 5 -= 6 snapshot 7 append (array variant)
-void genAtomic(Prng& r, Plan& p, int)
+void genAtomic(Prng& r, Plan& p, int tier)
 {
 	int T = 2 + (int)r.below(2);
+	bool heavy = tier && r.below(10) == 0;
+	if (heavy)
+		T = 8 + (int)r.below(9);
 	p.p["threads"] = T;
 	p.p["type"] = r.below(3); // 0 int, 1 double, 2 Array<int>
 	for (int t = 0; t < T; t++)
 	{
-		int n = 1 + (int)r.below(4);
+		int n = heavy ? 10 + (int)r.below(31) : 1 + (int)r.below(4);
 		for (int i = 0; i < n; i++)
 			p.ops.push_back(op("a", {t, (int64_t)r.below(8), (int64_t)(1 + r.below(5))}));
 	}
@@ -512,7 +520,7 @@ void genAtomic(Prng& r, Plan& p, int)
 template <class N>
 void runAtomicNum(const Plan& p, const char* tn)
 {
-	int T = (int)std::max<int64_t>(1, std::min<int64_t>(3, p.get("threads", 2)));
+	int T = (int)std::max<int64_t>(1, std::min<int64_t>(16, p.get("threads", 2)));
 	asl::Atomic<N> x(N(10));
 	struct A
 	{
@@ -525,7 +533,7 @@ void runAtomicNum(const Plan& p, const char* tn)
 		{
 			size_t t = (size_t)(std::abs(o.arg(0)) % T);
 			int k = (int)(std::abs(o.arg(1)) % 7), n = (int)(1 + std::abs(o.arg(2)) % 5);
-			if (ops[t].size() >= 6)
+			if (ops[t].size() >= 48)
 				continue;
 			ops[t].push_back(A{k, n});
 			if (k == 0 || k == 1) plus += 1;
@@ -570,7 +578,7 @@ void runAtomicNum(const Plan& p, const char* tn)
 
 void runAtomicArr(const Plan& p)
 {
-	int T = (int)std::max<int64_t>(1, std::min<int64_t>(3, p.get("threads", 2)));
+	int T = (int)std::max<int64_t>(1, std::min<int64_t>(16, p.get("threads", 2)));
 	size_t heap0 = sim::heapLive();
 	int total = 0;
 	{
@@ -580,7 +588,7 @@ void runAtomicArr(const Plan& p)
 			if (o.k == "a")
 			{
 				size_t t = (size_t)(std::abs(o.arg(0)) % T);
-				if (ops[t].size() < 6)
+				if (ops[t].size() < 48)
 				{
 					ops[t].push_back((int)(std::abs(o.arg(1)) % 8));
 					if (std::abs(o.arg(1)) % 8 != 6)
@@ -613,7 +621,7 @@ void runAtomicArr(const Plan& p)
 					}
 					else
 					{
-						x << (t * 100 + mine);
+						x << (t * 100 + mine); // (element = thread * 100 + ordinal; at most 48 ordinals per thread)
 						mine++;
 					}
 				}
